@@ -80,10 +80,12 @@ Proof. vm_compute. repeat split. Qed.
 
 (* The Write entry point (Encoder.Write: the top-level value is written out, never replaced by a
    back-reference, but registered like any other; model Enc.enc_write): its output is token-legal and
-   is exactly one value for the independent reader, like Encode's.  That the written value DENOTES v
-   and that later back-references resolve to it is not proved for this entry point; it is checked on
-   every run by the proved reader on the real Encoder's output for sequences that mix Write and Encode
-   (lib/iosuite.py sequences_family). *)
+   is exactly one value for the independent reader, like Encode's.  On a FRESH encoder (Write as the first
+   operation after NewEncoder / Reset) the stream denotes the value (C03_write_entry_denotes_value below: on
+   empty tables Write and Encode differ only for strings, which Write always puts in the 's' form).  For a
+   Write in the middle of a sequence (tables not empty) the denotation, and that later back-references
+   resolve to what Write registered, is not proved; it is checked on every run by the proved reader on the
+   real Encoder's output for sequences that mix Write and Encode (lib/iosuite.py sequences_family). *)
 Theorem C03_write_entry_output_is_one_value : forall simple hp fuel st v st' w,
   gval_ok v = true -> heap_ok hp = true ->
   enc_write simple hp fuel st v = EOk st' w -> tok_ok w = true /\ parse_all (emit w) = Some w.
@@ -98,3 +100,25 @@ Example write_entry_nonvacuous :
   (match enc_write false [] 3 einit (GString [Byte.x78]) with EOk _ (WStr [Byte.x78]) => true | _ => false end) = true /\
   enc false [] 3 einit (GString [Byte.x78]) = EOk einit (WChar [Byte.x78]).
 Proof. vm_compute. split; reflexivity. Qed.
+
+From HV Require Import Proofs.RefProofs Proofs.WriteProofs.
+Theorem C03_write_entry_denotes_value : forall hp fuel v st' w,
+  heap_ok hp = true -> gval_ok v = true -> ref_wf hp v = true -> write_plain hp fuel v = true ->
+  enc_write false hp fuel einit v = EOk st' w ->
+  exists d, denote_top w = Some d /\ abs_top hp fuel v = Some d.
+Proof. exact write_denotes_abs. Qed.
+Print Assumptions C03_write_entry_denotes_value.
+
+(* ... and the excluded case of that theorem, a string (possibly behind untracked pointers): written in the
+   's' (or, when it is not UTF-8, bytes) form, which denotes the string *)
+Theorem C03_write_entry_string_denotes : forall simple hp f s st' w,
+  enc_write simple hp (S f) einit (GString s) = EOk st' w ->
+  w = string_wire s /\ denote_top w = abs_top hp (S f) (GString s).
+Proof. exact write_string_denotes. Qed.
+Print Assumptions C03_write_entry_string_denotes.
+
+Example write_plain_nonvacuous :
+  let hp := [(1%N, GStruct ["N"%byte] [["n"%byte]; ["v"%byte]] [GPtr 1; GInt KInt 5])] in
+  write_plain hp 5 (GPtr 1) = true /\ write_plain hp 5 (GString ["x"%byte]) = false /\
+  (exists st w, enc_write false hp 10 einit (GPtr 1) = EOk st w).
+Proof. vm_compute. repeat split. eexists. eexists. reflexivity. Qed.
